@@ -48,6 +48,12 @@ RULE += (" Added after the white-box review: "
          "contain 'solver.P *= f' and calls that must be refused "
          "(bad_call); the caller re-uses its stream-count array; "
          "greedy and brute-force stream-search wrappers ")
+RULE += (" Added after the second white-box review: absolute scales "
+         "(all powers x 1e-6/1e-12/1e-20; channel x 1e-3/1e-6 with the "
+         "noise fixed or following the channel gain); precoders handed to "
+         "set_precoders as one 3-D numpy array; after a stream reduction "
+         "the solve is continued with initialize_with='fix' and the "
+         "ORIGINAL stream request. ")
 
 LEVEL_TEXT = ("Generated-input search (Hypothesis, seeded, sharded) over "
               "channels, antenna/stream/power configurations, solver classes, "
@@ -91,6 +97,12 @@ ASSUMPTIONS = [
     "capacity computation then raises LinAlgError (seen once in a thorough "
     "run: K=3, 4x4, Ns=[2,3,3]) - judged outside 'configurations on which "
     "an IA solver is defined'",
+    "in the very-low-SNR classes (powers x 1e-6 and below) the AltMin cost "
+    "oracle is skipped when a noise variance is set (the library takes the "
+    "interference subspace from eig(interference + noise*I), which is only "
+    "known to eps*noise/interference) and full_F vs F of the MMSE/max-SINR "
+    "solvers is compared by column space (their stream reduction sends F "
+    "and full_F through separate SVDs and keeps ill-determined columns)",
     "set_precoders/set_receive_filters are fed numpy object arrays (what "
     "the tests and the library itself use) and, as a labelled minority, "
     "plain lists (documented as accepted) and, for set_precoders, one 3-D "
@@ -327,7 +339,10 @@ def _op_solve():
         pvals=_pvals(),
         init=st.sampled_from(["random", "random", "svd", "alt_min",
                               "closed_form", "fix", "fix"]),
-        max_iter=st.sampled_from([1, 1, 2, 3, 5])))
+        # with 'fix' the caller repeats its ORIGINAL stream request (the
+        # documented way to continue a solution), or passes the current one
+        fix_ns=st.sampled_from(["current", "requested"]),
+        max_iter=st.sampled_from([1, 1, 2, 3, 5, 13])))
 
 
 @st.composite
@@ -684,17 +699,19 @@ def _postconditions(ctx, solver, cls, cfg, H, P_exp, tags, who="solve"):
         if cfg.get("pexp") and cls in ("MMSE", "MaxSinr"):
             # very low SNR: the solution degenerates to fewer streams and the
             # library's stream reduction takes F and full_F through separate
-            # SVDs, each keeping a column whose phase hangs on a component of
-            # relative size 1e-8 and less: parallel up to a unit complex
-            # factor is all that can be demanded there (seen on the
-            # unchanged tree: factor exp(4e-7j) at P = 1e-22)
-            c = np.vdot(np.asarray(F[k]), fk) / max(_fro(fk), 1e-300)
+            # SVDs, each keeping the first n columns of its rank-n
+            # approximation - columns that hold components of relative size
+            # 1e-4 and less, whose mixing (n = 1: phase) is only known to a
+            # few digits.  What can be demanded there is that both span the
+            # same space (seen on the unchanged tree at P = 1e-12, 4 -> 2
+            # streams: same span to 1e-13, columns differ by 6e-4 relative)
+            Fk_ = np.asarray(F[k])
+            r1 = fk - Fk_ @ np.linalg.lstsq(Fk_, fk, rcond=None)[0]
+            r2 = Fk_ - fk @ np.linalg.lstsq(fk, Fk_, rcond=None)[0]
             _close(ctx, "full_F_parallel_F",
-                   _fro(fk - _fro(fk) * c * np.asarray(F[k])) /
-                   max(_fro(fk), 1e-300) +
-                   abs(abs(c) - 1.0), 1e-9, "user %d (up to a phase)" % k,
-                   tags)
-            ctx.label("full_F_parallel_F:phase_free(very low SNR)")
+                   _fro(r1) / max(_fro(fk), 1e-300) + _fro(r2), 1e-8,
+                   "user %d (same column space)" % k, tags)
+            ctx.label("full_F_parallel_F:same_span_only(very low SNR)")
         else:
             _close(ctx, "full_F_parallel_F",
                    _fro(fk - _fro(fk) * np.asarray(F[k])) /
@@ -847,6 +864,22 @@ def _check_post(case, ctx):
         n_list = _postconditions(ctx, solver, cls, cfg, H, P_exp, tags)
         if n_list != Ns:
             ctx.label("stream_reduced")
+            if cls != "ClosedForm":
+                # the documented way to go on: 'fix' and the same arguments
+                # as before (the request is now larger than what the
+                # precoders hold; the streams follow the precoders)
+                solver.initialize_with = "fix"
+                solver.solve(_ns_arg(case["ns_form"], Ns), p_arg)
+                ctx.label("fix_with_original_request_after_reduction")
+                n2 = _postconditions(ctx, solver, cls, cfg, H, P_exp,
+                                     dict(tags, init="fix"),
+                                     who="'fix' solve with the original "
+                                     "request after a stream reduction")
+                if any(a > b for a, b in zip(n2, n_list)):
+                    raise Violation("shape_streams", "streams %r after a "
+                                    "'fix' continuation of a solution with "
+                                    "%r" % (n2, n_list), tags)
+                n_list = n2
         if cls == "ClosedForm":
             _closed_form_nulling(ctx, solver, cfg, H, tags)
         if cls in ("AltMin", "MinLeakage") and n_list == Ns:
@@ -917,6 +950,15 @@ def _check_mono(case, ctx):
             n_list = _postconditions(ctx, solver, cls, cfg, H, P_exp, tags)
             if n_list != Ns:
                 ctx.label("stream_reduced")
+                # go on once more as a user would: 'fix' and the ORIGINAL
+                # request (the cost sequence ends here: the objective
+                # changes with the stream counts)
+                solver.initialize_with = "fix"
+                solver.solve(ns_arg, p_arg)
+                ctx.label("fix_with_original_request_after_reduction")
+                _postconditions(ctx, solver, cls, cfg, H, P_exp, tags,
+                                who="'fix' solve with the original request "
+                                "after a stream reduction")
                 break
             seq.append(_check_cost(ctx, solver, cls, cfg, H, Ns, tags))
             # the precoders are eigenvectors of a Hermitian matrix: their
@@ -1180,7 +1222,9 @@ def _read(ctx, solver, model, cls, what, tags, opi):
         fF = model.fullF()
         scale = _leak_oracle(H, fF, model.Ns())[1]
         nz = model.cfg["noise"]
-        if cls == "AltMin" and nz and scale < 1e-4 * nz:
+        tiny = bool(model.cfg.get("pexp")) or (
+            model.cfg["hscale"] < 0.1 and not model.cfg.get("noise_scaled"))
+        if cls == "AltMin" and nz and (tiny or scale < 1e-4 * nz):
             # the library takes the interference subspace from the
             # eigenvectors of (interference + noise*I): with the noise 1e4
             # times above the interference they are only known to eps*noise/
@@ -1444,6 +1488,7 @@ def _apply(ctx, solver, model, cls, op, tags, opi):
         t = dict(tags)
         t.update(max_Ns=int(max(Ns)), equal_Ns=len(set(Ns)) == 1,
                  had_F=model.F is not None)
+        init = None
         if cls != "ClosedForm":
             init = op["init"]
             if init not in _inits(cls, cfg, Ns, model.F is not None):
@@ -1460,11 +1505,31 @@ def _apply(ctx, solver, model, cls, op, tags, opi):
             solver.max_iterations = int(op["max_iter"])
             t["init"] = init
             ctx.label("hist_init=" + init)
+        ns_call = Ns
+        req = getattr(model, "requested_Ns", None)
+        if init == "fix" and \
+                op.get("fix_ns") == "requested" and req is not None and \
+                len(req) == K and all(a >= b for a, b in zip(req, Ns)):
+            # continue the previous solution with the same arguments as
+            # before: after a stream reduction the request is larger than
+            # what the precoders hold; the streams follow the precoders
+            ns_call = list(req)
+            if ns_call != list(Ns):
+                ctx.label("fix_with_original_request_after_reduction")
+        else:
+            model.requested_Ns = list(Ns)
         with _tagged(t):
-            solver.solve(_ns_arg(op["ns_form"], Ns), p_arg)
+            solver.solve(_ns_arg(op["ns_form"], ns_call), p_arg)
             tags["F_container"] = t["F_container"] = "objarray"
             _postconditions(ctx, solver, cls, cfg, H, P_exp, t,
                             who="solve (history op %d)" % opi)
+            if init == "fix" and \
+                    [int(x) for x in solver.Ns] != \
+                    [np.shape(f)[1] for f in solver.F]:
+                raise Violation("shape_streams", "after a 'fix' solve Ns=%r "
+                                "but the precoders have %r columns" %
+                                (list(solver.Ns),
+                                 [np.shape(f)[1] for f in solver.F]), t)
             if cls == "ClosedForm":
                 _closed_form_nulling(ctx, solver, cfg, H, t)
         # adopt the solution as the new primaries
